@@ -213,6 +213,7 @@ var c17HyphenBreak = regexp.MustCompile(`-\n\s*`)
 func runeCol(line string, byteIdx int) int { return utf8.RuneCountInString(line[:byteIdx]) }
 
 func c17Render(c *C17Case) (out string, width int, havePty bool, pm string, setup error) {
+	defer guardCall("WriteHelp")()
 	width = c.Width
 	if c.Width > 0 {
 		if !SetTermWidth(c.Width) {
